@@ -555,7 +555,7 @@ def check_c13(tier, seed, replay=None):
         "fields; duplicate definition, field, enum-option names; duplicate enum values; duplicate message / union indices; index 0; duplicate opcodes numeric and 4-char; enum value outside its "
         "base type; const not assignable; definition named like a primitive; struct containing itself directly, through another struct, and through a cycle entered from outside) and must be "
         "rejected; the extracted validator model's verdict is compared on every text",
-        "props/C13.v", ["C13_partial", "C13_sound", "C13_recursion", "C13_indices", "C13_enum_range"])
+        "props/C13.v", ["C13_partial", "C13_sound", "C13_recursion", "C13_indices", "C13_enum_range", "C13_accepted"])
     rng = SplitMix64(seed).fork("C13")
     n = 500 if tier == "thorough" else 120
     asts = gen_asts(rng, n, flags_enums=False, imports=False)
